@@ -129,6 +129,20 @@ class C07Monitor(jobsim.Monitor):
                 if not np.allclose(sol[dof0], want, rtol=1e-13, atol=1e-15):
                     self.V("reduced-system", "solve.solve: prescribed increments are not ext0 - u0", site="solve.solve.dx0")
             self.log.count("partition-once-solve-thrice-checked")
+            # the prescribed values left at their default (ext0 omitted): whatever increments the solve
+            # puts on the prescribed unknowns (the code sets them to -u0, i.e. prescribed values 0) enter
+            # the reduced system for the free unknowns
+            sol0 = np.asarray(fem.solve.solve(*system)).ravel()
+            if np.all(np.isfinite(sol0)) and dof1.size:
+                u0d, first = np.unique(dof0, return_index=True)
+                b0 = it["b"][dof1] - K[dof1, :][:, u0d] @ sol0[dof0][first]
+                res0 = K11 @ sol0[dof1] - b0
+                lim0 = 1e-8 * (float(abs(K11).max()) * float(np.abs(sol0[dof1]).max()) * np.sqrt(dof1.size) + float(np.abs(b0).max())) + 1e-300
+                if np.linalg.norm(res0) > lim0:
+                    self.V("reduced-system", f"solve.solve without ext0 sets increments on the prescribed unknowns (max {np.abs(sol0[dof0]).max():.3e}) that are missing in the reduced system of the free unknowns (residual {np.linalg.norm(res0):.3e} > {lim0:.3e})", site="solve.solve.default-ext0")
+                if not np.allclose(sol0[dof0], -x[dof0], rtol=1e-13, atol=1e-15):
+                    self.V("reduced-system", "solve.solve without ext0 does not bring the prescribed unknowns to zero (ext0 = None stands for prescribed values of zero)", site="solve.solve.default-ext0")
+                self.log.count("default-ext0-checked")
 
     # -- results -----------------------------------------------------------------------------
     def on_substep_end(self, eng, c):
